@@ -114,7 +114,7 @@ FLOORS = {
               'family:mixed-signs': 5000, 'family:both-negative': 3000, 'family:significance-0': 100,
               'mod:exact-multiple': 4000, 'mod:non-dyadic-divisor': 5000, 'mod:negative-divisor': 3000,
               'mod:div0': 50, 'mod:identity-checked': 15000, 'mod:sign-checked': 15000,
-              'binary-float-args': 15000, 'arg:error': 800, 'arg:numeric-text': 300, 'arg:logical': 200,
+              'binary-float-args': 15000, 'numpy-float-args': 300, 'arg:error': 800, 'arg:numeric-text': 300, 'arg:logical': 200,
               'arg:blank': 100, 'arg:text': 300, 'formula:compared': 1500},
     'thorough': {'evaluations': 20000000, 'round:tie': 4000000, 'round:tie:digits<0': 400000,
                  'round:near-tie': 5000000, 'round:multiple': 1000000, 'family:exact-multiple': 500000,
@@ -295,6 +295,11 @@ class Monitor:
         ctx = self.ctx
         args = list(args)
         out = lib.call(FUNCS[F][0], *args)
+        if any(isinstance(a, float) and type(a) is not float for a in args):
+            # a float of a subclass is judged as the float it holds (argument and result)
+            args = [float(a) if isinstance(a, float) and type(a) is not float else a for a in args]
+            if out[0] == 'v' and isinstance(out[1], float) and type(out[1]) is not float:
+                out = ('v', float(out[1]))
         verdict = judge(F, args, out)
         self.account(F, args, out, sig)
         if verdict is not None:
@@ -629,6 +634,29 @@ def coercions(mon, part):
                         mon.observe(F, [x, y, 1][:arity])
 
 
+def numpy_numbers(mon, part):
+    """the same numbers as numpy.float64 (what SLOPE, FORECAST ... hand to ROUND / FLOOR in a workbook): a float of
+    a subclass is the float it holds"""
+    import numpy as np
+    numbers = (2.55, -2.5, 0.3, 1234.5678, 0.125, 25.0, -0.29, 7.5)
+    for F, (_, lo, hi) in FUNCS.items():
+        for arity in range(lo, hi + 1):
+            second = (0.1, 2, -2) if F in ('MOD', 'CEILING', 'FLOOR') else (2, -1, 0) if F in ROUNDERS else (0.1, 2, -1)
+            for x in numbers:
+                for y in second:
+                    if not part.take():
+                        continue
+                    args = [np.float64(x), y, 1][:arity]
+                    if in_bounds(F, args):
+                        mon.ctx.count('numpy-float-args')
+                        mon.observe(F, args)
+                    if arity >= 2 and isinstance(y, float):
+                        args = [x, np.float64(y), 1][:arity]
+                        if in_bounds(F, args):
+                            mon.ctx.count('numpy-float-args')
+                            mon.observe(F, args)
+
+
 # ---- seeded samples
 
 def sample_decimal(rng):
@@ -734,6 +762,7 @@ def run(ctx):
     for _ in range(size['random'] // ctx.nshards):
         one_sample(mon, rng)
     coercions(mon, part)
+    numpy_numbers(mon, part)
     mon.flush()
     # ... and what is left of the budget goes into more samples
     n = 0
